@@ -16,6 +16,7 @@ def handle (st : St) (toks : List String) : Option (St × String) :=
   | ["counter", n] => do
     let n ← pU16 n
     some ({ sess := { st.sess with counter := ⟨n⟩ } }, "ok")
+  | ["creset"] => some ({ sess := { st.sess with counter := st.sess.counter.reset } }, "ok")
   | ["nextid"] =>
     let (id, s) := st.sess.nextID
     some ({ sess := s }, toString id.toNat)
